@@ -5,7 +5,7 @@
     `TwoQueueCache<K, ()>` is therefore replayed in the same model, with the values kept beside the cache. *)
 From Coq Require Import List ZArith.
 Import ListNotations.
-From VF Require Import Base Lru TwoQ KeyProj KeyProjSlru KeyProjTwoQ.
+From VF Require Import Base Lru TwoQ KeyProj KeyProjSlru KeyProjTwoQ KeyProjArc KeyProjWTiny KeyProjCompRun.
 
 Theorem C08_put_is_value_blind : forall s k v,
   match qput s k v with
@@ -38,6 +38,15 @@ Theorem C08_lookups_are_value_blind : forall s k,
   qproj (qpurge s) = kwith (qproj s) (kpurge (kr (qproj s))) (kpurge (kf (qproj s))) (kpurge (kg (qproj s))).
 Proof. exact qlookups_blind. Qed.
 
+(** whole histories: after any sequence of put / get / get_mut / remove with whatever values the three queues hold the keys,
+    in the order, that 2Q over keys alone holds after the same calls - and the run panics exactly when that one does *)
+Theorem C08_history_is_value_blind : forall ops s,
+  match crun twoq qvstep s ops with
+  | Ok s' => ckrun k2q qkstep (qproj s) (map cstrip ops) = Ok (qproj s')
+  | Panic n => ckrun k2q qkstep (qproj s) (map cstrip ops) = Panic n
+  end.
+Proof. exact qrun_blind. Qed.
+
 (** a new key into a full cache, with and without values: the same resident becomes a ghost *)
 Definition qput4 (a : val) : res twoq :=
   do (s1, _) <- qput (twoq_new 2 1 1) 1 a;
@@ -57,3 +66,4 @@ Print Assumptions C08_get_is_value_blind.
 Print Assumptions C08_victim_is_value_blind.
 Print Assumptions C08_remove_is_value_blind.
 Print Assumptions C08_lookups_are_value_blind.
+Print Assumptions C08_history_is_value_blind.
